@@ -76,6 +76,7 @@ func main() {
 	sigmaPath := flag.String("sigma", "sigma.json", "declared non-default summaries")
 	skipPath := flag.String("skip", "skip.json", "functions that are not translated, with reasons")
 	verbose := flag.Bool("v", false, "print per-function skeleton sizes")
+	noCHA := flag.Bool("nocha", false, "do not resolve interface method calls to the translated implementations")
 	flag.Parse()
 
 	abs, err := filepath.Abs(*repo)
@@ -88,6 +89,7 @@ func main() {
 	}
 	t := &Tr{repo: abs, byObj: map[*types.Func]*Fn{}, byLit: map[*ast.FuncLit]*Fn{},
 		sigma: map[string]SigmaEntry{}, skip: map[string]string{}, sigmaUsed: map[string]bool{}, skipUsed: map[string]bool{}}
+	t.noCHA = *noCHA
 	loadJSON(*sigmaPath, &t.sigma)
 	loadJSON(*skipPath, &t.skip)
 
@@ -227,8 +229,15 @@ func main() {
 		} else {
 			body = f.Lit.Body
 		}
-		c := ctx{fn: f, pkg: f.Pkg, top: true}
+		var late []*S
+		c := ctx{fn: f, pkg: f.Pkg, top: true, late: &late}
 		f.Body = t.stmts(c, body.List)
+		for _, d := range late {
+			f.Body = fin(f.Body, d)
+		}
+		if *verbose {
+			fmt.Fprintf(os.Stderr, "translated %s size=%d\n", f.Name, f.Body.size())
+		}
 	}
 
 	// ---- relevance: functions whose skeleton is empty are dropped, calls to them erased ----
@@ -487,6 +496,11 @@ def names : Diag.Names where
   let bad := Diag.explainAll names sigma prog
   if !bad.isEmpty then
     throw (IO.userError ("C14 lock balance violated: " ++ " || ".intercalate (bad.map (·.2))))
+
+#eval show IO Unit from do
+  let bad := Diag.explainEdges names (fun c => classNames.getD c s!"class#{c}") classNames.length lockClass acqTbl sigma prog
+  if !bad.isEmpty then
+    throw (IO.userError ("C14 lock order violated: " ++ " || ".intercalate bad))
 
 `)
 	used := map[string]bool{}
